@@ -235,7 +235,7 @@ def _judge_machine(run):
 def cases(draw):
     from ..scenario import Objective
 
-    sc = draw(scenarios({"cap": (5, 9), "families": Objective.FAMILIES + ["nanhole"]}))
+    sc = draw(scenarios({"cap": (5, 9), "families": Objective.FAMILIES + ["nanhole"], "allow_cache": True}))
     sc["objective_style"] = draw(st.sampled_from(["object", "lambda", "closure"]))
     return {"scenario": sc, "k": draw(st.integers(0, 9))}
 
